@@ -5,7 +5,7 @@ from mc import core, det, vnet, fe, sse, crashfs
 PROPERTY = 'C13'
 ENGINE = 'E4 exhaustive crash-point enumeration: the real client and server on the virtual network, one component killed before/after every file-system mutation of every persisting handler, restarted on the same directory'
 LEVEL = 'model_checking'
-DIRECTED_ADDITIONS = 'the CLI workload addressed by name, a second crash (either side) in the retry or any later command, SIGKILL replays'      # members added during the seeded-change campaign (DESIGN 7); counted under their own vacuity counters
+DIRECTED_ADDITIONS = 'the crash points of the small workloads again as an ordinary user (root ignores permission bits), the CLI workload addressed by name, a second crash (either side) in the retry or any later command, SIGKILL replays'      # members added during the seeded-change campaign (DESIGN 7); counted under their own vacuity counters
 
 STEPS = ['create', 'genkey', 'encrypt', 'upload-config', 'upload-index', 'search']
 IN_SCOPE = {
@@ -514,6 +514,32 @@ def run_unit(p, tier, seed):
         det.restore()
         return r
     todo = pts if 'only' not in p else [pts[i] for i in p['only']]
+    if p.get('as_user'):
+        # the same crash points once more as an ordinary user (root ignores permission bits): first as root, results discarded, so
+        # that every module is imported; then in a child that has given up root
+        warm = core.Result()
+        for pt in todo:
+            run_crash(warm, seed, wl, pt)
+
+        def work():
+            rr = core.Result()
+            for pt in todo:
+                run_crash(rr, seed, wl, pt)
+            return dict(rr)
+        tag, out = det.as_user(work)
+        if tag != 'ok':
+            r.v(PROPERTY, 'harness', 'unprivileged-run-fails', wl[0], {'workload': wl[0], 'as_user': True, 'only': p.get('only')}, 'the crash points can be run as uid 65534', out)
+        else:
+            for v in out['violations']:
+                c = core.dec(v['case'])
+                c['as_user'] = 65534
+                r.v(PROPERTY, v['component'], v['kind'], v['site'] + '@uid-65534', c, v['expected'], v['observed'])
+            for k in ('evaluations', 'states', 'transitions', 'nontrivial', 'traces'):
+                r[k] += out[k]
+            r.count('crash-points-as-ordinary-user', len(todo))
+            r.outcome('as-user-ok' if not out['violations'] else 'as-user-violations')
+        det.restore()
+        return r
     for pt in todo:
         if p.get('double'):
             run_double(r, seed, wl, pt)
@@ -537,6 +563,9 @@ def _expand(units_list, tier, seed):
             out.append(('%s/%d' % (uid, lo), dict(p, only=list(range(lo, min(lo + 6, n))))))
         if wl[0] == 'PiBas-small':
             out.append(('%s/sigkill' % uid, dict(p, sigkill=('all' if tier != 'quick' else 'some'))))
+        if wl[0] in ('PiBas-small', 'PiBas-small-cli') and os.getuid() == 0:
+            for lo in range(0, n, 8):
+                out.append(('%s/as-user/%d' % (uid, lo), dict(p, as_user=True, only=list(range(lo, min(lo + 8, n))))))
         if wl[0] == 'PiBas-small' or (tier != 'quick' and wl[0] in ('PiBas-small-cli', 'PiBas-big')):
             for lo in range(0, n, 4):
                 out.append(('%s/double/%d' % (uid, lo), dict(p, double=True, only=list(range(lo, min(lo + 4, n))))))
@@ -572,6 +601,17 @@ def replay(case, seed):
         run_crash(core.Result(), seed, wl, case['crash'], info=info)
         sc = case['second_crash']
         run_crash(r, seed, wl, case['crash'], second=(sc['command'], sc['side'], sc['mutation'], sc['when']), info=info)
+        return r['violations']
+    if case.get('as_user'):
+        run_crash(core.Result(), seed, wl, case['crash'])
+
+        def work():
+            rr = core.Result()
+            run_crash(rr, seed, wl, case['crash'])
+            return dict(rr)
+        tag, out = det.as_user(work)
+        for v in (out['violations'] if tag == 'ok' else []):
+            r.v(PROPERTY, v['component'], v['kind'], v['site'] + '@uid-65534', case, v['expected'], v['observed'])
         return r['violations']
     run_crash(r, seed, wl, case['crash'])
     return r['violations']
